@@ -863,13 +863,6 @@ Proof.
   apply names_of_strip.
 Qed.
 
-Print Assumptions read_printed.
-Print Assumptions run_target_print_read.
-Print Assumptions read_asm_print.
-Print Assumptions print_read_behaviour.
-Print Assumptions print_read_behaviour_any_exec.
-Print Assumptions print_read_behaviour_exact.
-Print Assumptions print_read_behaviour_exact_any_exec.
 
 (* ================================================================================================================== *)
 (* 7. C01 down to the text: source semantics = the machine on the text read back                                      *)
@@ -946,8 +939,6 @@ Proof.
   - intros m s. destruct (B m s) as (n & R). exists n. eapply res_le_trans'; [apply B2|]. apply strip_res_le. exact R.
 Qed.
 End TOP.
-Print Assumptions compiled_text_correct_from_source.
-Print Assumptions compiled_text_correct_from_source_any_exec.
 
 (* ================================================================================================================== *)
 (* 8. Examples: the hypotheses hold on the output of the model for a real source text; the conditions are needed      *)
@@ -1072,5 +1063,3 @@ Example open_end_one_more_step :
   Datatypes.snd (run_target (read_asm (print_instrs None code)) (t "S") 4 1) = Done OStuck.
 Proof. cbv zeta. split; [vm_compute; reflexivity|]. split; [vm_compute; reflexivity|]. split; [vm_compute; reflexivity|]. split; vm_compute; reflexivity. Qed.
 End EXAMPLES.
-Print Assumptions hypotheses_satisfiable.
-Print Assumptions ex_text_correct.
